@@ -306,6 +306,16 @@ func TestC13(t *testing.T) {
 				cl = append(cl, "pointer_to_pointer")
 			}
 		}
+		if rapid.IntRange(0, 3).Draw(t, "broken_message_decoded_first") == 0 && len(pkt) > 14 {
+			// the process has just rejected another message (a reply cut off inside a name, say):
+			// what the decoder did with it leaves no trace in the next call
+			cut := pkt[:13+uniform(t, "broken_cut", len(pkt)-13)]
+			decodeGuard(cut)
+			bad := append([]byte{}, pkt...)
+			bad[12+uniform(t, "broken_poke", len(bad)-12)] = 0xc0 | byte(rapid.IntRange(0, 63).Draw(t, "broken_ptr"))
+			decodeGuard(bad)
+			cl = append(cl, "after_a_rejected_message")
+		}
 		rp := map[string]any{"bytes": hx(pkt), "want": dnsfx.Canon(want), "compressed": hasPtr}
 		got, derr := decodeGuard(pkt)
 		if derr != nil {
